@@ -2,6 +2,8 @@ package main
 
 import (
 	"fmt"
+	"go/token"
+	"go/types"
 
 	"golang.org/x/tools/go/ssa"
 )
@@ -281,6 +283,111 @@ func runC10(r *Run, p *Prog) {
 		}
 		r.Stat("S6_calls_under_lock", n)
 		r.Floor("S6", 1)
+	})
+	// ---- S9
+	r.Guard("S9", func() {
+		// the accepted connection is read and written only through the context-aware wrapper: a direct Read/Write, or
+		// handing the connection to code outside the repository as a reader/writer (io.Copy, ioutil.ReadAll, bufio),
+		// blocks for as long as the peer likes - no context, no deadline - so a silent client pins the handler
+		n := 0
+		for _, e := range ro.ConnEntry {
+			v := p.Inlined(e, func(c *ssa.Function) bool { return fnPkgPath(c) == pkgCtxio })
+			cg.AddView(v)
+			for _, par := range v.Params {
+				if !isNamed(par.Type(), "net", "Conn") {
+					continue
+				}
+				seen := map[ssa.Value]bool{}
+				var walk func(val ssa.Value)
+				walk = func(val ssa.Value) {
+					if seen[val] || val.Referrers() == nil {
+						return
+					}
+					seen[val] = true
+					for _, ref := range *val.Referrers() {
+						switch x := ref.(type) {
+						case *ssa.ChangeInterface:
+							walk(x)
+						case *ssa.MakeInterface:
+							walk(x)
+						case *ssa.Phi:
+							walk(x)
+						case *ssa.TypeAssert:
+							if x.X != val {
+								continue
+							}
+							if x.CommaOk {
+								for _, r2 := range *x.Referrers() {
+									if ex, ok := r2.(*ssa.Extract); ok && ex.Index == 0 {
+										walk(ex)
+									}
+								}
+							} else {
+								walk(x)
+							}
+						case *ssa.Store:
+							// (spilled into a local variable)
+							if al, ok := x.Addr.(*ssa.Alloc); ok && x.Val == val {
+								for _, r2 := range *al.Referrers() {
+									if ld, ok := r2.(*ssa.UnOp); ok && ld.Op == token.MUL {
+										walk(ld)
+									}
+								}
+							}
+						case ssa.CallInstruction:
+							cc := x.Common()
+							if cc.IsInvoke() && cc.Value == val {
+								switch cc.Method.Name() {
+								case "Read", "Write", "ReadFrom", "WriteTo":
+									n++
+									r.Ob("S9", shortName(v), "the accepted connection is not read or written directly", x.Pos(), false,
+										cc.Method.Name()+" is called on the raw connection: it blocks until the peer acts, with no context and no deadline - a client that stays silent keeps the handler, its descriptor and the connection count for ever, and serving never drains")
+								}
+								continue
+							}
+							t := staticTarget(cc)
+							if t != nil && p.InRepo(t) {
+								continue // (the wrapper's constructor; repo callees outside ctxio are part of the view)
+							}
+							sig, _ := cc.Value.Type().Underlying().(*types.Signature)
+							if t != nil {
+								sig = t.Signature
+							}
+							for i, arg := range cc.Args {
+								if arg != val || sig == nil {
+									continue
+								}
+								var pt types.Type
+								switch {
+								case i < sig.Params().Len():
+									pt = sig.Params().At(i).Type()
+								case sig.Variadic() && sig.Params().Len() > 0:
+									pt = sig.Params().At(sig.Params().Len() - 1).Type()
+								}
+								it, _ := pt.Underlying().(*types.Interface)
+								doesIO := false
+								if it != nil {
+									for k := 0; k < it.NumMethods(); k++ {
+										if nm := it.Method(k).Name(); nm == "Read" || nm == "Write" {
+											doesIO = true
+										}
+									}
+								}
+								if doesIO {
+									n++
+									r.Ob("S9", shortName(v), "the accepted connection is not handed to foreign code as a reader or writer", x.Pos(), false,
+										"the raw connection is passed to "+calleeName(cc)+", which reads or writes it without a context or deadline: a client that stays silent keeps the handler, its descriptor and the connection count for ever, and serving never drains")
+								}
+							}
+						}
+					}
+				}
+				walk(par)
+				n++
+				r.Ob("S9", shortName(v), "uses of the accepted connection examined", par.Pos(), true, fmt.Sprintf("%d values derived from it", len(seen)))
+			}
+		}
+		r.Floor("S9", 1)
 	})
 	// ---- S5
 	r.Guard("S5", func() {
